@@ -6,7 +6,7 @@
 # Result: seeded/<Cnn-k>/results.json  {check: {rc, seconds, classes[]}}
 S=$1; shift; ROOT=$(cd "$(dirname "$0")/.." && pwd); D=$ROOT/seeded/$S
 [ -f "$D/patch.diff" ] || { echo "no $D/patch.diff"; exit 2; }
-TARGET=$(echo ${S%%-*} | sed "s/[a-z]*$//"); CHECKS="$@"; [ -n "$CHECKS" ] || CHECKS=$TARGET
+TARGET=$(echo ${S%%-*} | cut -c1-3); CHECKS="$@"; [ -n "$CHECKS" ] || CHECKS=$TARGET
 VM=${VERIF_VM:-/tmp/vm}; mkdir -p $VM
 exec 7>$VM/.lock; flock 7
 rsync -a --delete --exclude build --exclude evidence --exclude replays --exclude seeded --exclude .git "$ROOT/" $VM/verif/
